@@ -552,6 +552,13 @@ pub fn mutate_tokens(toks: &mut Vec<usize>, nterms: usize, tape: &mut Cursor) {
 
 /// Token string for an input tape. kinds: 0-3 sentence, 4-5 mutated sentence, 6 random
 /// tokens, 7 truncated sentence, 8 sentence with appended tokens, 9 doubly mutated.
+/// Sentence (kind 0) with its own depth budget: grammars whose interesting choices sit several
+/// levels below a list of statements need more than the default 6.
+pub fn sentence_deep(g: &Bnf, it: &InputTape, max_depth: usize, max_len: usize) -> Vec<usize> {
+    let mut c = Cursor::new(&it.tape);
+    derive_tokens(g, &mut c, max_depth, max_len)
+}
+
 pub fn tokens_for(g: &Bnf, it: &InputTape, max_len: usize) -> Vec<usize> {
     let mut c = Cursor::new(&it.tape);
     let nterms = g.nterms.max(1);
@@ -1445,9 +1452,9 @@ pub fn build_rec(tape: &[u16]) -> GrammarSpec {
     // is rule 2 + k
     let n = |k: usize| SymUse::plain(Sym::N(2 + k));
     let mut body: Vec<(String, Option<String>, Vec<AltSpec>)> = vec![];
-    let shape = c.pick(9);
+    let shape = c.pick(11);
     match shape {
-        7 => {
+        7 | 9 | 10 => {
             // the same optional symbol before and after a mandatory one (the trailing one may
             // be right-nulled while the leading one is on the stack), sugar or explicit rule
             let mut o1 = SymUse::plain(Sym::T(T_NUM));
